@@ -1359,6 +1359,33 @@ func ruleParGlobalIdx(c *Ctx, r *R) {
 			if label != "" {
 				key = "compile(" + label + ") " + nosp(c.Src(call))
 			}
+			if label == "" {
+				// a new helper inherits the compile-case(s) it is called from
+				if ho := c.Info.Defs[fd.Name]; ho != nil && c.isNewHelper(ho) {
+					labels := map[string]bool{}
+					ast.Inspect(cs.Fn.Body, func(k ast.Node) bool {
+						hc, ok := k.(*ast.CallExpr)
+						if !ok || c.Callee(hc) != ho {
+							return true
+						}
+						for p := c.Parent(hc); p != nil; p = c.Parent(p) {
+							if cc, ok := p.(*ast.CaseClause); ok {
+								for _, sc := range cs.Cases {
+									if sc.Clause == cc && len(sc.Labels) > 0 {
+										labels[sc.Labels[0]] = true
+									}
+								}
+							}
+						}
+						return true
+					})
+					if len(labels) == 1 {
+						for l := range labels {
+							label = l
+						}
+					}
+				}
+			}
 			if why, ok := globalIdxExempt[label]; ok {
 				r.ok(key, "exempt: "+why)
 				return true
